@@ -4,6 +4,7 @@ CONSTANTS MultipliedEndForNominal <- Off
           FirstAfterIgnoresEnd <- Off
           MaxTake = 6
           ShiftMovesStoredPoints <- On
+          WinSpecs <- NoWins
           Shifts <- OneShift
           Intervals <- AllIv
           Fmts <- F13
